@@ -448,7 +448,7 @@ func faultShards(prop string) func(tier string) []engine.Shard {
 								if len(s.Want) <= 8 {
 									bound = boundShort
 								}
-								before := len(r.outcomes)
+								clear(r.outcomes) // outcomes carry the stream and variant in their hash: count them per script to keep the set small
 								refused := int64(0)
 								ex, pts := engine.Explore(bound, func(c *engine.Chooser) {
 									if r.run(c) {
@@ -458,16 +458,16 @@ func faultShards(prop string) func(tier string) []engine.Shard {
 								st.Points += pts
 								st.Add("execs_bound"+fmt.Sprint(bound), ex)
 								st.Add("execs_refused_for_size_under_fault(C07)", refused)
-								if len(r.outcomes) > before {
+								if len(r.outcomes) > 0 {
 									st.Nontrivial++
 								}
+								st.Outcomes += int64(len(r.outcomes))
+								st.States += int64(len(r.outcomes))
 								if len(st.Samples) < 2 && len(s.Want) > 6 && variant == 0 {
 									st.Sample(map[string]any{"W": g.W, "B": g.B, "stream": s.Src, "blocks": s.Blocks, "writer_calls_fault_free": len(c0.Cs)})
 								}
 							}
 						}
-						st.Outcomes += int64(len(r.outcomes))
-						st.States += int64(len(r.outcomes))
 					},
 				})
 			}
